@@ -74,7 +74,7 @@ CLOCKS = ["0", "1", "7", "99", "100", "4095", "65535", "2147483647", "4294967295
 
 
 def mutate(rng, s):
-    k = rng.randrange(11)
+    k = rng.choice([0, 1, 2, 3, 4, 5, 6, 6, 6, 7, 8, 9, 10])
     if not s:
         return "x"
     i = rng.randrange(len(s))
@@ -83,6 +83,8 @@ def mutate(rng, s):
     if k == 1:
         return s[:i] + rng.choice(FEN_ALPHABET) + s[i:]
     if k == 2:
+        if rng.random() < 0.2:
+            return s[:i] + chr(ord(s[i]) + 256 * rng.choice([1, 2, 3])) + s[i + 1:]       # non-ASCII alias of the character
         return s[:i] + rng.choice(FEN_ALPHABET) + s[i + 1:]
     f = s.split(" ")
     if k == 3 and len(f) > 1:
@@ -98,7 +100,15 @@ def mutate(rng, s):
     ranks = f[0].split("/")
     j = rng.randrange(len(ranks))
     if k == 6:
-        ranks[j] = ranks[j].replace("8", "44", 1) if "8" in ranks[j] else ranks[j] + "1"
+        # split one run of empty squares into two adjacent digits (sum preserved) at whatever offset it stands
+        idx = [i for i, c in enumerate(ranks[j]) if c in "2345678"]
+        if idx:
+            i = rng.choice(idx)
+            d = int(ranks[j][i])
+            a = rng.randrange(1, d)
+            ranks[j] = ranks[j][:i] + str(a) + str(d - a) + ranks[j][i + 1:]
+        else:
+            ranks[j] = ranks[j] + "1"
     elif k == 7:
         ranks[j] = ranks[j][:-1] if len(ranks[j]) > 1 else "7"
     elif k == 8:
@@ -301,6 +311,16 @@ def check_c15(tier, replay=None):
             for t in SQ:
                 for p in ["", "q", "r", "b", "n", "k"]:
                     add("move", f + t + p, "move text space")
+        # characters whose code point is an ASCII move character plus a multiple of 256 (what a narrowing cast would alias)
+        for _ in range(3000 if T else 400):
+            m = rng.choice(SQ) + rng.choice(SQ) + rng.choice(["", "q", "n"])
+            i = rng.randrange(len(m))
+            add("move", m[:i] + chr(ord(m[i]) + 256 * rng.choice([1, 1, 2, 3, 16, 255])) + m[i + 1:], "move text with a non-ASCII alias of a valid character")
+        for _ in range(300 if T else 60):
+            m = rng.choice(SQ) + rng.choice(SQ)
+            i = rng.randrange(4)
+            alias = m[:i] + chr(ord(m[i]) + 256 * rng.choice([1, 2, 3])) + m[i + 1:]
+            add("line", rng.choice(["position startpos moves e2e4 %s", "go depth 2 searchmoves %s", "go searchmoves d2d4 %s wtime 100"]) % alias, "command with an alias move text")
         for s in ["", "e2", "e2e", "e2e4qq", "e2e4x", "E2E4", "A1a2", "1234", "a0a1", "a9a1", "i1a1", "e2e4 ", " e2e4", "é2e4", "e2e4Q", "h1a1P", "e2-e4", "0000", "e2e4q!", "aaaa", "1111"]:
             add("move", s, "malformed move text")
         cases.append({"id": len(cases) + 1, "family": "uci", "k": "fmt_all", "s": "", "why": "format then parse every move value", "key": "fmt_all"})
